@@ -29,7 +29,7 @@ RULE = (
     "'True', '5', '', 'nan') and bytes (empty, non-UTF-8), keys any text outside the names with built-in meaning; codec "
     "JSON / pickle / JSONFormatter; a plan of 0-3 re-deliveries, each a retry (SimpleRetryMiddleware) or a requeue "
     "(Context.requeue), through the real kicker, formatter bytes and Receiver.callback. Oracle: the labels seen by a "
-    "pre_execute middleware, by Context inside the task and in the stored result equal the sent ones in value and type on "
+    "pre_execute middleware (which hands on the same message object or a shallow / deep copy of it), by Context inside the task and in the stored result equal the sent ones in value and type on "
     "every delivery, and carry no label that was not given to that call (a second call of the same task with labels of its "
     "own goes through the same broker and middleware instances in a third of the cases). (2) 'kicker_histories': a RuleBasedStateMachine over one broker with two tasks, a shared task (AsyncSharedBroker with a default broker) and a second broker: "
     "rules new_kicker / with_labels / with_task_id / with_broker / kiq on a kicker / kiq directly on the task / "
@@ -92,6 +92,8 @@ def roundtrips() -> Any:
         "decl": LABELS, "extra": LABELS,
         "codec": st.sampled_from(["json", "json", "pickle", "jsonfmt"]),
         "plan": st.lists(st.sampled_from(["retry", "requeue"]), max_size=3),
+        # the observing pre_execute middleware hands on the message it got, or a (shallow / deep) copy of it - a message-replacing middleware
+        "mw_returns": st.sampled_from(["same", "same", "copy", "deepcopy"]),
         # a second call of the same task through the same broker / middleware instances, with labels of its own:
         # whatever one call carried must not show up in the other
         "second": st.one_of(st.none(), st.fixed_dictionaries({"extra": LABELS, "plan": st.lists(st.sampled_from(["retry", "requeue"]), max_size=2)})),
@@ -135,7 +137,8 @@ def run_roundtrip(c: Dict[str, Any]) -> Outcome:
         class MW(TaskiqMiddleware):
             def pre_execute(self, message: Any) -> Any:
                 seen.append(("middleware", message.task_id, runs.get(message.task_id, 0) + 1, dict(message.labels)))
-                return message
+                how = c.get("mw_returns", "same")
+                return message if how == "same" else message.model_copy(deep=(how == "deepcopy"))
 
         b.add_middlewares(MW(), SimpleRetryMiddleware(default_retry_count=10, default_retry_label=True, no_result_on_retry=False))
 
@@ -202,7 +205,7 @@ def run_roundtrip(c: Dict[str, Any]) -> Outcome:
                                  f"(sent {sorted(want)}; other call(s): {[sorted(x['extra']) for m, x in enumerate(calls) if m != n]})")
     types = {type(v).__name__ for cl in calls for v in {**decl, **cl["extra"]}.values()}
     out.nontrivial = bool(len(types) >= 3 or allplans)
-    out.classes = [c["codec"], f"types={len(types)}", "plan=" + ("+".join(calls[0]["plan"]) or "none")] + sorted("has_" + t for t in types) + (["two_calls"] if len(calls) > 1 else [])
+    out.classes = [c["codec"], f"types={len(types)}", "plan=" + ("+".join(calls[0]["plan"]) or "none")] + sorted("has_" + t for t in types) + (["two_calls"] if len(calls) > 1 else []) + (["message_replacing_middleware"] if c.get("mw_returns", "same") != "same" else [])
     out.trace = {"runs": runs, "deliveries": deliveries}
     return out
 
